@@ -133,6 +133,8 @@ NOT_APPLICABLE = {
     "C18": "feature-matrix / build-configuration facts (does the crate build under a feature set, does compile_error! fire, are types Send+Sync, is there unsafe): decided by rustc and cargo over configurations; no pre/postcondition on a function expresses them and neither Verus nor Kani reasons across cfg sets",
 }
 
+_LONG_LISTS = dict(name="long_lists", kind="bounded-execution", bound="66 cases: TLS / DTLS ClientHello with n cipher suites (n in {0,1,2,3,15..17,127..129,255..257,511..513,1023..1025,4097,16385,32767}) and 0..255 compression methods, client extension block with n named groups and min(n,127) versions; every element distinct, checked in order", payload={"long_list_check": 1})
+
 PROPS = {
     "C08": dict(
         level="proof",
@@ -173,6 +175,7 @@ PROPS = {
                    thorough=["rel_tag_sni", "rel_tag_elliptic_curves", "rel_tag_signature_algorithms", "rel_tag_supported_versions", "rel_tag_psk_key_exchange_modes"], timeout=900, timeout_thorough=2400)],
         witness_search={"dispatch_ext": {"ext_search": True}},
         paired={'ext_contents': ['leaf_named_groups', 'leaf_tls_versions', 'leaf_ext_psk_modes', 'leaf_ext_supported_versions', 'leaf_ext_elliptic_curves', 'leaf_ext_esni', 'leaf_ext_ec_point_formats', 'leaf_ext_early_data'], 'ext_lists2': ['leaf_ext_sni', 'leaf_ext_alpn', 'leaf_ext_signature_algorithms', 'leaf_ext_oid_filters']},
+        standins=[_LONG_LISTS],
         explanation="see level_text",
     ),
     "C03": dict(
@@ -210,6 +213,7 @@ PROPS = {
                           "shim_be", "shim_take", "shim_length_data", "shim_opt_cond", "shim_verify", "shim_length_count", "shim_alt", "shim_map_parser", "shim_many0", "shim_complete", "shim_chunks_map_collect", "shim_iter_map_collect"],
                    thorough=["leaf_hs_certificate_request"], timeout=900, timeout_thorough=2400)],
         paired={'dispatch_hs': [], 'hellos': ['leaf_cipher_suites', 'leaf_compressions', 'leaf_hs_server_hello', 'leaf_hs_server_hello_msg', 'mod_client_hello', 'leaf_hs_ske', 'leaf_hs_cke', 'leaf_hs_finished'], 'certs': ['leaf_hs_certificate'], 'bodies': ['leaf_hs_newsessionticket', 'leaf_hs_certificatestatus', 'leaf_hs_next_protocol'], 'bodies2': ['leaf_hs_hello_retry_request', 'leaf_hs_server_hello_msg']},
+        standins=[_LONG_LISTS],
         explanation="see level_text",
     ),
     "C10": dict(
@@ -218,7 +222,7 @@ PROPS = {
         level_note="Trusted: nom shims (be_u8/16/24, take, map, map_parser, complete, many1); DTLS body parsers uninterpreted in unit dtls (proved in units hellos / bodies2); R9 (closure signature + ensures), R10 (constructor eta-expanded into a closure with its trivial contract); ServerHello/Certificate/ServerDone/ClientKeyExchange bodies are the C04 parsers (checked there).",
         technique="contract-based deductive verification: Verus on extracted dispatcher/record glue + Kani full-domain header harness and leaf harnesses",
         verus=["dtls", "dtls_many", "bodies2", "hellos"],
-        standins=[dict(name="framing_boundaries", kind="bounded-execution", bound="declared lengths {0,1,2,3,16383..16385,16639..16641,32768,65535} x 3 content types x 8 prefix cuts, TLS raw/encrypted/plaintext/tls_parser + DTLS record (372 cases)", payload={"framing_boundary_check": 1})],
+        standins=[_LONG_LISTS, dict(name="framing_boundaries", kind="bounded-execution", bound="declared lengths {0,1,2,3,16383..16385,16639..16641,32768,65535} x 3 content types x 8 prefix cuts, TLS raw/encrypted/plaintext/tls_parser + DTLS record (372 cases)", payload={"framing_boundary_check": 1})],
         kani=[dict(quick=["fd_dtls_header", "fd_dtls_ccs_alert", "fd_dtls_is_fragment", "leaf_dtls_hvr", "leaf_dtls_fragment", "mod_dtls_client_hello", "leaf_cipher_suites", "leaf_compressions", "shim_be", "shim_be64", "shim_take", "shim_map_parser", "shim_many1", "shim_verify", "shim_chunks_map_collect", "shim_iter_map_collect"], timeout=900)],
         paired={'hellos': ['mod_dtls_client_hello', 'leaf_cipher_suites', 'leaf_compressions'], 'dtls': ['fd_dtls_header', 'fd_dtls_is_fragment', 'leaf_dtls_fragment'], 'bodies2': ['leaf_dtls_hvr']},
         explanation="see level_text",
@@ -308,6 +312,7 @@ PROPS = {
                           "leaf_digitally_signed", "leaf_ext_sni", "leaf_ext_status_request", "leaf_hs_certificatestatus", "leaf_ext_psk_modes", "leaf_ext_ec_point_formats",
                           "leaf_sct_entry", "fd_hs_key_update", "leaf_ec_parameters", "fd_dtls_header", "leaf_ext_supported_versions", "leaf_tls_versions", "shim_chunks_map_collect", "shim_iter_map_collect"],
                    thorough=["leaf_hs_certificate_request"], timeout=900, timeout_thorough=2400)],
+        standins=[_LONG_LISTS],
         explanation="see level_text",
     ),
     "C01": dict(
